@@ -67,6 +67,8 @@ typedef struct vh_ctx {
   uint64_t caseseed;
   int mute;      /* warm-up pass of a case (C10): nothing is logged */
   long live0;    /* live heap blocks when the current call started (leak accounting, C11) */
+  const char *fns[48]; /* hook H0: distinct internal routines whose exit marker fired during the current call */
+  int nfns;
 } vh_ctx_t;
 
 extern __thread vh_ctx_t *CTX;
@@ -88,7 +90,7 @@ void vh_ps(vh_ev_t *e, const char *k, const char *s);       /* string param */
 void vh_opnd(vh_ev_t *e, const char *nm, char role, mzd_t *M);
 void vh_pre(vh_ev_t *e);
 /* run the call: if (VH_CALL(e)) { ...library call... } VH_END(e) */
-#define VH_CALL(e) (CTX->armed = 1, CTX->died = 0, CTX->live0 = __atomic_load_n(&vh_live_blocks, __ATOMIC_RELAXED), vh_lib_enter(), sigsetjmp(CTX->jb, 1) == 0)
+#define VH_CALL(e) (CTX->nfns = 0, CTX->armed = 1, CTX->died = 0, CTX->live0 = __atomic_load_n(&vh_live_blocks, __ATOMIC_RELAXED), vh_lib_enter(), sigsetjmp(CTX->jb, 1) == 0)
 #define VH_END(e) do { vh_lib_leave(); CTX->armed = 0; (e)->die = CTX->died; \
   (e)->dlive = __atomic_load_n(&vh_live_blocks, __ATOMIC_RELAXED) - CTX->live0; \
   if (CTX->died) strncpy((e)->diemsg, CTX->diemsg, sizeof((e)->diemsg) - 1); } while (0)
